@@ -885,6 +885,39 @@ func genG04(repo string, w *Out) error {
 			return fmt.Errorf("Proxy.modifyErrorResponse: body is not the shape the model transcribes: %s", s)
 		}
 	}
+	// ---- a MITM'd tunnel: after handleMITM switched the connection to the TLS session, the SAME loop keeps calling
+	//      handle(), i.e. every request read from the session goes through modifyRequest like any other
+	reenters := true
+	if px, err := Parse(repo, "internal/martian/proxy.go"); err != nil {
+		return err
+	} else if hl, err := px.Func("Proxy.handleLoop"); err != nil {
+		return err
+	} else {
+		ahl := newAlpha(hl, "p", "conn", "pc", "err", "errorsN", "start")
+		if s := px.Src(hl.Body); !ahl.Contains(s, "pc := newProxyConn(p, conn)") || !ahl.Contains(s, "for { if err := pc.handle(); err != nil {") {
+			reenters = false
+		}
+	}
+	if hm, err := pc.Func("proxyConn.handleMITM"); err != nil {
+		return err
+	} else {
+		ahm := newAlpha(hm, "p", "req", "tlsconn", "cs", "buf", "b", "err", "ctx", "res")
+		if s := pc.Src(hm.Body); !ahm.Contains(s, "p.conn = tlsconn") || !ahm.Contains(s, "p.secure = true") ||
+			!ahm.Contains(s, "p.brw.Writer.Reset(tlsconn)") {
+			reenters = false
+		}
+	}
+	if hc, err := pc.Func("proxyConn.handleConnectRequest"); err != nil {
+		return err
+	} else if s := pc.Src(hc.Body); !newAlpha(hc, "p", "req").Contains(s, "if p.shouldMITM(req) { return p.handleMITM(req) }") {
+		reenters = false
+	}
+	if hh, err := pc.Func("proxyConn.handle"); err != nil {
+		return err
+	} else if s := pc.Src(hh.Body); !newAlpha(hh, "p", "req").Contains(s, "if req.Method == http.MethodConnect { return p.handleConnectRequest(req) }") {
+		reenters = false
+	}
+	w.DefBool("mitm_session_reenters_handle", reenters)
 	w.DefBool("error_response_keeps_challenge", keepsConn)
 	w.DefBool("handler_error_response_keeps_challenge", keepsHandler)
 
